@@ -79,8 +79,11 @@ def run_history(hist: List[Tuple[int, int, int]], query: Tuple[int, int]) -> Opt
     return None
 
 
-def worker(item: Tuple[int, Tuple[int, int], Tuple[int, int], bool]) -> Dict[str, Any]:
-    H, first, query, focus = item
+def worker(item: Any) -> Dict[str, Any]:
+    H, first, query, focus = item[:4]
+    owner = item[4] if len(item) > 4 else "C12"
+    # C10 ("later parses on the same parser behave as on a fresh one"): histories of parse calls only
+    op_pool = list(range(len(OPS))) if owner == "C12" else [OPS.index("parse")]
     st = Stats()
     part: Dict[str, Any] = {"stats": st, "cases": 1, "nontrivial": 0, "proved": 0, "queries": 0, "inconclusive": 0,
                             "violations": [], "samples": [], "reach": {}, "inconclusive_samples": [],
@@ -92,7 +95,7 @@ def worker(item: Tuple[int, Tuple[int, int], Tuple[int, int], bool]) -> Dict[str
             if i == 0:
                 op, ti = first
             else:
-                op = ctx.choose(len(OPS), f"op{i}_")
+                op = op_pool[ctx.choose(len(op_pool), f"op{i}_")]
                 ti = 0
                 if OPS[op] != "clear_cache":
                     if focus:
@@ -121,7 +124,7 @@ def worker(item: Tuple[int, Tuple[int, int], Tuple[int, int], bool]) -> Dict[str
         again = run_history(hist, query)  # replay: the same calls again, on new objects
         if again:
             fault = "tokens" if query[0] == 1 else "tree"
-            part["violations"].append(Violation("C12", fault, {"fault": fault}, again,
+            part["violations"].append(Violation(owner, fault, {"fault": fault}, again,
                                                 {"kind": "history", "history": hist, "query": list(query), "observed": again}))
         else:
             part["engine_mismatch"] += 1
